@@ -70,3 +70,36 @@ prop("C02", run="^TestC02", level="exploration",
      text="Differential exploration against an independent spec-derived codec in both directions, plus an exhaustive sweep of the finite header space for the rejection clause.",
      note="Trusted: harness/ref (frame.go, wire.go, lz4.go) typed in from the six specification files; disagreements were triaged against the spec text (DESIGN.md 6).",
      technique="differential property-based testing (rapid) against a spec-derived reference encoder; exhaustive enumeration of the 2^16 header space", design="DESIGN.md 4 C02, 3.3")
+
+prop("C06", run="^TestC06", level="exploration",
+     quick=(8, 600, 900), thorough=(16, 20000, 7200),
+     rule="segment payloads: length from boundaries {0,1,2,3,15,16,255,256,65535,65536,65537,131070,131071} / 0..300 / uniform 0..131071 (thorough: additionally EVERY length 0..131071 once per content class and configuration) "
+          "x content class (all-equal, short period, text, random, half/half) x self-contained flag x {no compressor, LZ4}; oversize payloads 131072..1 MiB for the refusal clause. Oracle: emitted bytes parsed by an independent "
+          "implementation of header packing, CRC-24 and seeded CRC-32 (bitwise, no tables); uncompressed segments byte-exact; LZ4: fallback form or a block the independent LZ4 decoder expands to the payload; round trip incl. header "
+          "length fields; conforming segments built by the reference encoder (fallback and run-length LZ4) must decode. Non-trivial = payload length > 0; distinct by (length, class, seed, flag, compressor)",
+     assumptions=["the uncompressed fallback is signalled by uncompressed-length field = 0 and the payload length in the compressed-length field (the property's anchor and Cassandra's encoder); the literal sentence of spec 2.3.2 ('setting the compressed length to 0') contradicts the layout and is not asserted",
+                  "harness/ref/segment.go and harness/ref/lz4.go are trusted base"],
+     text="Differential + round-trip exploration of the v5 segment layer against an independent framing/CRC/LZ4 implementation; the thorough tier enumerates every payload length.",
+     note="Trusted: ref.CRC24, ref.CRC32, ref.SegmentHeader/ParseSegment, ref.LZ4DecodeBlock written from the v5 spec and the LZ4 block format.",
+     technique="property-based testing (rapid) + exhaustive length enumeration: round trip and differential against a reference framing/CRC/LZ4 implementation", design="DESIGN.md 4 C06")
+
+prop("C07", run="^TestC07", level="fault_enumeration",
+     quick=(8, 4000, 900), thorough=(16, 300000, 10800),
+     rule="faults on encoded segments: header+CRC-24 bit patterns - quick: all of weight 1..3 over the 48/64 bits of 10 base segments + rapid-sampled weights 1..7 on generated headers; thorough: all weights 1..7 (48-bit base) / 1..6 (64-bit base) / 1..4 (other bases); "
+          "payload+CRC-32: every single-bit flip, every pair (payloads <= 256 B), every burst start x length 1..32 x 4 interior masks on payloads of 0..255 (thorough ..4096) bytes, rapid-sampled singles/pairs/bursts on payloads up to 131071 bytes, with and without LZ4. "
+          "Header faults are followed by a lazily built tail valid for the lengths the altered header declares. Every case alters >= 1 bit (all non-trivial); distinct by (base, pattern) - enumerations are distinct by construction",
+     assumptions=["burst bits are numbered in wire order, least-significant bit of each byte first (the order in which the reflected CRC-32 is a polynomial code)",
+                  "the consistent tail uses Go's hash/crc32 and a literal-only LZ4 block; a few compressed lengths have no single-sequence literal block and get a zero tail"],
+     text="Fault enumeration: exhaustive low-weight header error patterns and exhaustive single/pair/burst payload errors on representative segments, sampled beyond; every altered segment must be refused with a nil segment.",
+     note="Trusted: the fault injector and tail builder; decisions are black-box (error + nil segment).",
+     technique="fault enumeration + rapid-sampled faults: exhaustive bit-flip patterns against the decoder's reject oracle", design="DESIGN.md 4 C07")
+
+prop("C08", run="^TestC08", level="exploration",
+     quick=(16, 400, 900), thorough=(16, 12000, 7200),
+     rule="byte strings: sizes 0..16, 2^k+-1 (k=4..24), 0..5000, uniform up to 131071 (raw LZ4) / 1 MiB, 10% up to 4 MiB (thorough 16 MiB) x content class (all-equal, short period, text, random, half/half, long run + random tail; compression ratio class recorded) "
+          "x format {LZ4 raw, LZ4 with length, Snappy with length}. Oracle: D(C(x)) == x, LZ4 length prefix big-endian len(x), independent reference decoders expand the library's output to x, and the library expands blocks from independent encoders "
+          "(literal-only, run-length) to x. Non-trivial = len >= 1; distinct by (format, content hash)",
+     assumptions=["frame/segment-level 'compressed decodes like uncompressed' is exercised by C01/C06 on the same compressors"],
+     text="Round-trip and cross-decoding exploration of both compressors in both formats across size and compressibility classes.",
+     note="Trusted: ref.LZ4DecodeBlock, ref.SnappyDecodeBlock and the two reference encoders. Open finding DEP-lz4-offset-wrap-65536 excluded on the exact emitted block.",
+     technique="property-based testing (rapid): round trip + differential against independent LZ4/Snappy block codecs", design="DESIGN.md 4 C08")
